@@ -365,6 +365,12 @@ func c04Exec(cs *C04Case, alone *c04Alone, pol policy) *c04Run {
 	for i, e := range w.envs {
 		snaps[i] = Snapshot(e)
 	}
+	tsnaps := make([]string, len(w.tpls))
+	for i, t := range w.tpls {
+		if t != nil {
+			tsnaps[i] = Snapshot(t)
+		}
+	}
 	run := &c04Run{pol: pol, results: make([][]Res, len(cs.Tasks)), budget: make([]int64, len(cs.Tasks))}
 	fns := make([]func(), len(cs.Tasks))
 	for i := range cs.Tasks {
@@ -385,6 +391,13 @@ func c04Exec(cs *C04Case, alone *c04Alone, pol policy) *c04Run {
 	for i, e := range w.envs {
 		if s := Snapshot(e); s != snaps[i] {
 			run.changed = append(run.changed, fmt.Sprintf("shared binding environment %d was modified during the concurrent run: %s", i, diffAt(snaps[i], s)))
+		}
+	}
+	for i, t := range w.tpls {
+		if t != nil {
+			if s := Snapshot(t); s != tsnaps[i] {
+				run.changed = append(run.changed, fmt.Sprintf("shared parsed template %d was modified during the concurrent run: %s", i, diffAt(tsnaps[i], s)))
+			}
 		}
 	}
 	return run
